@@ -36,6 +36,8 @@ def reference(defn):
             do = tr.get("do", ["continue"]) if "do" in tr or True else []
             if isinstance(do, str):
                 do = [x.strip() for x in do.split(",")]
+            # a (task, transition, target) triple is one edge however often the target is written
+            do = list(dict.fromkeys(do))
             for t in do or ["continue"]:
                 out.append((k, t, tr.get("when")))
         return out
@@ -158,6 +160,7 @@ def skeletons():
                          "y": dict(n, next=[{"do": "k"}]), "z": dict(n, next=[{"do": "k"}]), "k": dict(n, join="JOIN")},
         "cycle": {"i": dict(n, next=[{"do": "a"}]), "a": dict(n, next=[{"do": "b"}]), "b": dict(n, next=[{"when": w("again"), "do": "a"}, {"when": w("done"), "do": "c"}]), "c": dict(n)},
         "unreachable": {"a": dict(n, next=[{"do": "b"}]), "b": dict(n), "c": dict(n, next=[{"do": "d"}]), "d": dict(n, join="JOIN")},
+        "comma-dup": {"a": dict(n, next=[{"when": w("x"), "do": "b, b"}, {"when": w("y"), "do": "b,c , b"}]), "b": dict(n), "c": dict(n)},
         "comma-do": {"s": dict(n, next=[{"do": "a, b"}]), "a": dict(n), "b": dict(n, next=[{"do": "a"}])},
     }
     return sk
